@@ -122,6 +122,8 @@ type runState struct {
 	// as an exhausted time budget)
 	reported  map[string]bool
 	nUnlisted int
+	shards    int // the baseline of a scenario runs in one shard only
+	shard     int
 }
 
 const (
@@ -274,12 +276,13 @@ func TestC15(t *testing.T) {
 		"a table of blocking API calls (rows = call scenario x fault kind; cells = rows x positions of the legitimate conversation) of a full ouroboros.Connection "+
 			"over an in-memory pipe; the peer is a raw segment peer that plays the legitimate conversation up to a position and then injects the fault (a reply of another kind the "+
 			"state map admits / of a kind it does not admit / a surplus reply / a truncated segment then close / close / silence then close / garbage / close right after the handshake / "+
-			"close in the middle of a message / a flood of valid messages whose total size exceeds the state's PendingMessageByteLimit, read from the exported state map, with a slow user callback when a call is pending). rapid draws position, the alternative message, cut point, segmentation, read-fragmentation plans of both ends, linger, who ends the "+
+			"close in the middle of a message / transport errors other than EOF / silence without close against 250 ms protocol timeouts / a flood of valid messages whose total size exceeds the state's PendingMessageByteLimit, read from the exported state map, with a slow user callback when a call is pending). rapid draws position, the alternative message, cut point, segmentation, read-fragmentation plans of both ends, linger, who ends the "+
 			"connection (peer close or local Close()), and whether the caller goes on after an error. A case is non-trivial when the fault was really injected at the planned position "+
 			"(the legitimate prefix ran without desynchronisation); two cases are distinct when their full specification differs")
 	defer rec.Finish()
 	rec.Assume(
-		"the harness drains ErrorChan() (a consumer that never reads it is outside the statement)",
+		"the harness drains ErrorChan(), in 1 of 5 cases only after Close() has returned (the channel is buffered; a consumer that never reads it is outside the statement)",
+		"scenarios re-use the same Connection / client / server objects through Stop/Start and MsgDone/restart cycles and through failed operations before the fault; histories in which a client Stop() meets a receive backlog are not generated (does not hold on the unchanged tree, see findings)",
 		"user callbacks given to the library return immediately (one tx-submission scenario has a Done callback that takes 3 ms; in flood cases with a call pending the chain-sync / block-fetch callbacks block until 20 ms after the connection ended - a slow consumer)",
 		"a goroutine counts as started for the connection when it is not in the goroutine set taken right before the connection is created and has a gouroboros frame; the harness's own caller goroutines are judged as calls, not as leaks",
 		"goroutines that even a fault-free conversation leaves behind are reported once by the baseline phase (key no-fault) and not again per fault",
@@ -327,6 +330,7 @@ func TestC15(t *testing.T) {
 	baseSeed := int(rec.Seed() - int64(shard)) // identical in all shards of one run
 
 	// ---- phase 0: every scenario once without any fault (self-check of the scripts + unconditional leaks)
+	st.shards, st.shard = shards, shard
 	st.baseline("", viol)
 
 	// ---- phase 1: walk the table
@@ -399,8 +403,11 @@ func TestC15(t *testing.T) {
 // must hold; goroutines left behind here are reported under a no-fault key and
 // ignored afterwards.
 func (st *runState) baseline(only string, fail failer) {
-	for _, s := range scenarios() {
+	for si, s := range scenarios() {
 		if only != "" && s.Name != only {
+			continue
+		}
+		if only == "" && st.shards > 1 && si%st.shards != st.shard {
 			continue
 		}
 		if st.tooMany() {
@@ -434,7 +441,10 @@ func (st *runState) baseline(only string, fail failer) {
 			st.rec.Class("baseline-desync")
 			fmt.Printf("HARNESS-NOTE baseline %s: the legitimate script lost synchronisation: %v\n", s.Name, o.Trace)
 		}
-		for _, c := range o.Calls {
+		for i, c := range o.Calls {
+			if i < len(s.Calls) && s.Calls[i].ErrOK {
+				continue
+			}
 			if c.Err != "" && !strings.Contains(c.Err, "stop server process") {
 				st.rec.Class("baseline-call-error")
 				fmt.Printf("HARNESS-NOTE baseline %s: call %s returned %s\n", s.Name, c.Name, c.Err)
